@@ -426,11 +426,17 @@ func Standalone() (store *ModelStore, commander *command.Commander, stop func())
 	s := &Sim{plan: &Plan{}}
 	store = newModelStore(s)
 	s.store = store
+	commander, stop = StandaloneOver(store)
+	return store, commander, stop
+}
+
+// StandaloneOver starts a new Commander over an existing store (a process restart).
+func StandaloneOver(store *ModelStore) (commander *command.Commander, stop func()) {
 	commander = command.New(store, command.NewDefaultLocker(), command.NewCompiler(64), command.NewReferencer(), bus.NewNoOpMonitor())
 	ctx := logging.ContextWithLogger(context.Background(), nopLogger{})
 	if err := commander.Init(ctx); err != nil {
 		panic(err)
 	}
 	go commander.Run(ctx)
-	return store, commander, commander.Close
+	return commander, commander.Close
 }
